@@ -80,7 +80,8 @@ def make_world(mask):
     m = np.ones((7, 8))
     for i, j in MASKS[mask]:
         m[j, i] = 0
-    return world.World(imax=8, jmax=7, N=2, h=30.0, mask=m, dx=DX)
+    # pm, pn are not defined in the land cells of the grid file (NaN, as masking tools write them): no particle is ever in a land cell
+    return world.World(imax=8, jmax=7, N=2, h=30.0, mask=m, dx=np.where(m > 0, DX, np.nan))
 
 
 def start_positions(w, lim):
